@@ -274,6 +274,17 @@ Proof.
       rewrite D, D2, delivered_cons. now rewrite app_assoc.
 Qed.
 
+(* a receiver that has read everything and holds no complete record has nothing more to deliver *)
+Lemma settled st : wf st -> first_record (eff_maclen P c) (r_buf st) = None -> deliveries st [] = [].
+Proof.
+  intros W H. unfold stream_deliveries. rewrite app_nil_r.
+  destruct (encr c) eqn:E; cbn [andb].
+  - destruct (r_iv st) eqn:I; cbn [negb].
+    + cbn [stream_records]. now rewrite H.
+    + destruct (W E I) as [L _]. destruct (Nat.leb_spec (blklen P) (length (r_buf st))); [lia|reflexivity].
+  - cbn [stream_records]. now rewrite H.
+Qed.
+
 Lemma wf0 : (0 < blklen P)%nat -> wf rstate0.
 Proof. intros B _ _. cbn. auto. Qed.
 
